@@ -113,6 +113,9 @@ pub struct Config {
     pub enumerate_ranges: bool,
     /// keep a simulated TLB coherent through the returned flush tokens
     pub tlb: bool,
+    /// data memory (everything outside the table zones) reads as zero instead of garbage
+    #[serde(default)]
+    pub zero_data: bool,
 }
 
 #[derive(Clone, Debug, PartialEq, Eq, Serialize, Deserialize)]
